@@ -2,7 +2,7 @@
    the value type, for any comparison that behaves like IEEE < (false on NaN,
    irreflexive, transitive). *)
 From Coq Require Import List ZArith NArith Bool Lia.
-From Verif Require Import RangeFns.
+From Verif Require Import RangeOrd.
 Import ListNotations.
 
 Section OrderProofs.
